@@ -25,11 +25,32 @@ def histories(C, tier):
         for san in (False, True):
             for pre in ([], [('char', 7)], [('bytes', [1, 255, 3])]):
                 out.append(pre + ([('san', True)] if san else []) + [op])
+    # the same string written on both sides of a mode toggle (any pair of string writers), both directions
+    def sop(k, s):
+        return (k, s) if k in ('string', 'enc') else (k, s, len(s) + (2 if k.endswith('p') else 0), k.endswith('p'))
+    kinds = [('string',), ('enc',), ('fixed',), ('fixedenc',), ('fixedp',), ('fixedencp',)]
+    for s in ([0xFF], [65, 0xFF, 66], [0xFF, 0x7E, 0xFF]):
+        for (k1,) in kinds:
+            for (k2,) in kinds:
+                o1 = sop(k1, s); o1 = (k1.rstrip('p'),) + o1[1:]
+                o2 = sop(k2, s); o2 = (k2.rstrip('p'),) + o2[1:]
+                out.append([o1, ('san', True), o2, ('san', False), o1, o2])
+                out.append([('san', True), o1, ('san', False), o2, ('san', True), o2])
     nb = len(out)
-    # random histories
+    # random histories (strings drawn from a small per-history pool, so that the same string recurs across mode toggles)
     n = 350 if tier == 'quick' else 4000
     for _ in range(n):
-        out.append([gen_wop(rng) for _ in range(rng.choice([rng.randrange(1, 8), rng.randrange(1, 41)]))])
+        pool = [gen_string(rng) for _ in range(3)] + [[0xFF], [0x79, 0xFF]]
+        h = []
+        for _ in range(rng.choice([rng.randrange(1, 8), rng.randrange(1, 41)])):
+            op = gen_wop(rng)
+            if op[0] in ('string', 'enc') and rng.random() < 0.6:
+                op = (op[0], rng.choice(pool))
+            elif op[0] in ('fixed', 'fixedenc') and rng.random() < 0.6:
+                ps = rng.choice(pool)
+                op = (op[0], ps, len(ps) + rng.choice([0, 0, 1, 3]), op[3] or rng.random() < 0.5)
+            h.append(op)
+        out.append(h)
     return out, nb
 
 
